@@ -11,12 +11,12 @@ ASSUMPTIONS = ["X-points not joined to the primary O-point by a monotone psi lin
 
 
 def plan(tier, seed):
-    ntr = 24 if tier == "quick" else 400
+    ntr = 40 if tier == "quick" else 400
     shards = 8 if tier == "quick" else 16
     jobs = [{"name": "c19-unit-%d" % k, "module": "vmon.jobs.c19_unit", "args": {"seed": 1000 * seed + k, "trials": max(1, ntr // shards)}, "timeout": 3000} for k in range(shards)]
     return {"cases": [], "jobs": jobs, "monitors": []}
 
 
 def required(tier, classes, records):
-    pats = [("single null", r"find_critical\|[lu]sn"), ("double null", r"find_critical\|(cdn|ldn|udn)"), ("both signs", r"s-"), ("decision single", r"decision\|single"), ("decision double", r"decision\|double")]
+    pats = [("single null", r"find_critical\|[lu]sn"), ("double null", r"find_critical\|(cdn|ldn|udn)"), ("both signs", r"s-"), ("decision single", r"decision\|single"), ("decision double", r"decision\|double"), ("X-point diagonal from the O-point", r"pair\(diagonal\)")]
     return need_classes(classes, pats)
